@@ -1,7 +1,7 @@
 (* C01: non-vacuity — concrete programs satisfying the hypotheses of the theorems. *)
 From Coq Require Import List ZArith NArith PArith Bool FMapPositive.
 Import ListNotations.
-Require Import Verif.Model.C01_IRSem Verif.Model.C01_Syntax Verif.Model.C01_Check Verif.Model.C01_SSA Verif.Proofs.C01.
+Require Import Verif.Model.C01_IRSem Verif.Model.C01_Syntax Verif.Model.C01_Check Verif.Model.C01_SSA Verif.Proofs.C01 Verif.Proofs.C01_SSA.
 Open Scope Z_scope.
 
 (* func F(x int) int { s := 0; for i := 0; i < x; i++ { s += i }; return s }  (lifted form) *)
@@ -22,4 +22,53 @@ Proof. eexists. exists 100%nat. split. vm_compute. reflexivity. discriminate. Qe
 Example ex_sum_out_of_fuel : exec 5 ex_prog 0 [VInt 5] empty_heap = OutOfFuel.
 Proof. vm_compute. reflexivity. Qed.
 Example ex_sum_ssa_ok : ssa_ok_prog ex_prog = true.
+Proof. vm_compute. reflexivity. Qed.
+
+(* func G(n, x, y int) (int, int) { for i := 0; i < n; i++ { x, y = y, x }; return x, y }  (lifted form):
+   the two phis of the loop head refer to each other, so they must be read as a parallel copy *)
+Definition ex_swap : func :=
+  mkFunc 0 [1; 2; 3]%positive [] 2 [VInt 0; VInt 0] [
+    blk [] [1]%N [jp];
+    blk [0; 2]%N [2; 3]%N [ph 4 [r 2; r 5]; ph 5 [r 3; r 4]; ph 6 [ci 0; r 8]; bin 7 Lss i64 i64 (r 6) (r 1); br (r 7)];
+    blk [1]%N [1]%N [bin 8 Add i64 i64 (r 6) (ci 1); jp];
+    blk [1]%N []%N [rt [r 4; r 5]]] None.
+Definition ex_prog2 : program := mkProgram [ex_swap] [].
+
+Example ex_swap_runs : exists h tr, exec 100 ex_prog2 0 [VInt 3; VInt 10; VInt 20] empty_heap = Done [VInt 20; VInt 10] h tr.
+Proof. eexists. eexists. vm_compute. reflexivity. Qed.
+Example ex_swap_ssa_ok : ssa_ok_prog ex_prog2 = true.
+Proof. vm_compute. reflexivity. Qed.
+(* the hypothesis of wf_no_undef holds and its conclusion is about a real execution *)
+Example ex_swap_no_undef : forall n r, exec n ex_prog2 0 [VInt 3; VInt 10; VInt 20] empty_heap <> Stuck (EUndef r).
+Proof. intros. apply exec_no_undef. vm_compute. reflexivity. Qed.
+
+(* a use before its definition is rejected by the validator, and does get stuck *)
+Definition ex_bad : func :=
+  mkFunc 0 [1]%positive [] 1 [VInt 0] [
+    blk [] [1; 2]%N [bin 2 Lss i64 i64 (r 1) (ci 0); br (r 2)];
+    blk [0]%N [2]%N [bin 3 Add i64 i64 (r 1) (ci 1); jp];
+    blk [0; 1]%N []%N [rt [r 3]]] None.
+Example ex_bad_rejected : ssa_ok_prog (mkProgram [ex_bad] []) = false.
+Proof. vm_compute. reflexivity. Qed.
+Example ex_bad_stuck : exec 100 (mkProgram [ex_bad] []) 0 [VInt 5] empty_heap = Stuck (EUndef 3%positive).
+Proof. vm_compute. reflexivity. Qed.
+
+(* defer + recover with a named result kept in memory (naive-like form):
+     func H(x int) (r int) { defer func() { if recover() != nil { r = -1 } }(); r = 10 / x; return }  *)
+Definition ex_h : func :=
+  mkFunc 0 [1]%positive [] 1 [VInt 0] [
+    blk [] []%N [al 2 true (VInt 0); o 3 (OpMakeClosure 1) [r 2]; IDefer CValue None [r 3];
+                 bin 4 Quo i64 i64 (ci 10) (r 1); st (r 2) (r 4); IRunDefers; ld 5 (r 2); rt [r 5]];
+    blk [] []%N [ld 6 (r 2); rt [r 6]]] (Some 1%N).
+Definition ex_h1 : func :=
+  mkFunc 0 [] [1]%positive 0 [] [
+    blk [] [1; 2]%N [ICall (Some 2%positive) CRecover []; bin 3 Neq KOther KOther (r 2) (cv (VIface None)); br (r 3)];
+    blk [0]%N [2]%N [st (r 1) (ci (-1)); jp];
+    blk [0; 1]%N []%N [rt []]] None.
+Definition ex_prog3 : program := mkProgram [ex_h; ex_h1] [].
+Example ex_h_ok : exists h tr, exec 100 ex_prog3 0 [VInt 2] empty_heap = Done [VInt 5] h tr.
+Proof. eexists. eexists. vm_compute. reflexivity. Qed.
+Example ex_h_recovers : exists h tr, exec 100 ex_prog3 0 [VInt 0] empty_heap = Done [VInt (-1)] h tr.
+Proof. eexists. eexists. vm_compute. reflexivity. Qed.
+Example ex_h_ssa_ok : ssa_ok_prog ex_prog3 = true.
 Proof. vm_compute. reflexivity. Qed.
